@@ -1485,8 +1485,10 @@ def test_apply_size_extension_constraint_conflicting_value_raises(simple_config,
         _apply_size_extension_constraint(c, obj_map, config, slice_dict, "volume")
 
 
-def test_apply_size_extension_constraint_volume_upper_bound_none_raises(simple_config, simple_volume, simple_material):
-    """Raises when volume's upper bound is None (should never happen in normal flow)."""
+def test_apply_size_extension_constraint_volume_upper_bound_none_postpones(
+    simple_config, simple_volume, simple_material
+):
+    """A still unknown volume bound postpones the constraint (it may be set by a later constraint)."""
     config = _resolve_grid_from_volume([simple_volume], simple_config)
     obj = UniformMaterialObject(name="obj1", partial_grid_shape=(10, 10, 10), material=simple_material)
     obj_map = {"volume": simple_volume, "obj1": obj}
@@ -1504,8 +1506,9 @@ def test_apply_size_extension_constraint_volume_upper_bound_none_raises(simple_c
         grid_offset=None,
         offset=None,
     )
-    with pytest.raises(Exception, match="This should never happen"):
-        _apply_size_extension_constraint(c, obj_map, config, slice_dict, "volume")
+    resolved, new_slices = _apply_size_extension_constraint(c, obj_map, config, slice_dict, "volume")
+    assert resolved is False
+    assert new_slices["obj1"] == [[None, None], [None, None], [None, None]]
 
 
 # ---------------------------------------------------------------------------
